@@ -391,19 +391,47 @@ func Validate(env *Env, module string, traces []Case, tag string) ([]Bad, TLCSta
 	if len(traces) == 0 {
 		return nil, total, nil
 	}
+	// shards are sized by the volume of the traces (white-box events make some traces a thousand times
+	// larger than others), not only by their number, and filled largest first into the lightest shard
 	per := 400
+	sizes := make([]int, len(traces))
+	totalBytes := 0
+	for i, t := range traces {
+		b, _ := json.Marshal(t)
+		sizes[i] = len(b) + 200
+		totalBytes += sizes[i]
+	}
 	nshard := (len(traces) + per - 1) / per
+	if bySize := totalBytes/(3<<20) + 1; bySize > nshard {
+		nshard = bySize
+	}
 	if nshard > 16 {
 		nshard = 16
 	}
+	if nshard > len(traces) {
+		nshard = len(traces)
+	}
+	order := make([]int, len(traces))
+	for i := range order {
+		order[i] = i
+	}
+	sort.SliceStable(order, func(a, b int) bool { return sizes[order[a]] > sizes[order[b]] })
 	shards := make([][]Case, nshard)
-	for i, t := range traces {
-		shards[i%nshard] = append(shards[i%nshard], t)
+	load := make([]int, nshard)
+	for _, i := range order {
+		best := 0
+		for k := 1; k < nshard; k++ {
+			if load[k] < load[best] {
+				best = k
+			}
+		}
+		shards[best] = append(shards[best], traces[i])
+		load[best] += sizes[i]
 	}
 	bads := make([][]Bad, nshard)
 	stats := make([]TLCStats, nshard)
 	errs := make([]error, nshard)
-	sem := make(chan struct{}, 8)
+	sem := make(chan struct{}, 12)
 	var wg sync.WaitGroup
 	for si := range shards {
 		wg.Add(1)
